@@ -155,7 +155,7 @@ class DSession:
             "subs": [self._oid_of(o) for o in d.subscribers],
             "hists": [
                 (
-                    {"na": False, "h": [model.sop_ref(s) for s in self.pool[i + 1].history]}
+                    {"na": False, "h": [model.sop_ref(s) for s in self.pool[i + 1].history[: self._cap()]]}
                     if (i + 1) in self.pool and isinstance(self.pool[i + 1], HistoryObserver)
                     else {"na": True, "h": []}
                 )
@@ -165,6 +165,10 @@ class DSession:
             "instok": model.instance_fingerprint(self.instance) == self.fp0,
         }
         return p
+
+    def _cap(self):
+        """A record longer than this is certainly wrong already; keep the log bounded."""
+        return 3 * self.instance.num_operations + 10
 
     def _ev(self, rec):
         rec["notes"] = self.notes
@@ -220,9 +224,13 @@ class DSession:
     def apply_filter(self, names, ops):
         f = model.make_filter(names)
         lst = [self._op(j, p) for j, p in ops]
-        out, val = _outcome(lambda: f(self.dispatcher, lst))
+        out1, val1 = _outcome(lambda: f(self.dispatcher, lst))
+        out, val = _outcome(lambda: f(self.dispatcher, lst))       # the same composite object, asked again
+        if out1 != "ok":
+            out, val = out1, val1
         self._ev({"a": "Filter", "names": list(names), "L": [list(o) for o in ops],
-                  "out": out, "res": [model.op_ref(o) for o in val] if out == "ok" else []})
+                  "out": out, "res": [model.op_ref(o) for o in val] if out == "ok" else [],
+                  "res_first": [model.op_ref(o) for o in val1] if out1 == "ok" else []})
 
     def create(self, o):
         kind = self.kinds[o - 1]
